@@ -241,3 +241,159 @@ def _hole_after(text: str, pat: str, holes: Optional[List[Optional[str]]] = None
         if holes is None or holes[i] is not None:
             return i
     return None
+
+
+# ---------------------------------------------------------------------------
+# REFLOW: line-breaking variants of one template must carry the same content
+
+
+def _template_tokens(js: ast.JoinedStr) -> Tuple[str, Tuple[str, ...]]:
+    lit = ""
+    holes: List[str] = []
+    for v in js.values:
+        if isinstance(v, ast.Constant):
+            lit += "".join(str(v.value).split()).replace("(", "").replace(")", "")
+            continue
+        e = v.value
+        # indentation helpers do not change content
+        while isinstance(e, ast.Call) and (dotted_of(e.func) or "").split(".")[-1] in ("indent_but_first_line", "Stripped") and e.args:
+            e = e.args[0]
+        if isinstance(e, ast.Name) and e.id in ("I", "II", "III", "IIII", "INDENT", "INDENT2", "INDENT3"):
+            continue
+        if isinstance(e, ast.Attribute) and e.attr.startswith("INDENT"):
+            continue
+        holes.append(ast.unparse(e))
+        lit += "\x00"
+    return lit, tuple(holes)
+
+
+def _first_template(e: ast.AST) -> Optional[ast.JoinedStr]:
+    while isinstance(e, ast.Call) and (dotted_of(e.func) or "").split(".")[-1] == "Stripped" and e.args:
+        e = e.args[0]
+    return e if isinstance(e, ast.JoinedStr) else None
+
+
+def check_reflow(ctx, f: FuncInfo, rule: str) -> None:
+    """``X = f"..."``; ``if len(X) > N: X = f\"\"\"...re-flowed...\"\"\"``: same holes, same text modulo whitespace and redundant parentheses."""
+    for blk in ast.walk(f.node):
+        body = getattr(blk, "body", None)
+        if not isinstance(body, list):
+            continue
+        for seq_ in (body, getattr(blk, "orelse", None) or []):
+            for i, s in enumerate(seq_):
+                if not (isinstance(s, ast.If) and not s.orelse):
+                    continue
+                t = s.test
+                if not (isinstance(t, ast.Compare) and isinstance(t.left, ast.Call) and dotted_of(t.left.func) == "len" and t.left.args and isinstance(t.left.args[0], ast.Name)):
+                    continue
+                var = t.left.args[0].id
+                re_as = [a for a in s.body if isinstance(a, ast.Assign) and isinstance(a.targets[0], ast.Name) and a.targets[0].id == var]
+                if len(re_as) != 1 or len(s.body) != 1:
+                    continue
+                prev = None
+                for p_ in reversed(seq_[:i]):
+                    if isinstance(p_, ast.Assign) and isinstance(p_.targets[0], ast.Name) and p_.targets[0].id == var:
+                        prev = p_
+                        break
+                if prev is None:
+                    continue
+                a, b = _first_template(prev.value), _first_template(re_as[0].value)
+                if a is None or b is None:
+                    continue
+                ta, tb = _template_tokens(a), _template_tokens(b)
+                what = f"{f.qualname}: re-flowed variant of `{var}` ({len(ta[1])} holes)"
+                if ta == tb:
+                    ctx.ok(rule, f, s, what=what)
+                else:
+                    diff = f"holes {list(ta[1])} vs {list(tb[1])}" if ta[1] != tb[1] else "literal text differs"
+                    ctx.fail(rule, f, s,
+                             f"the line-broken variant of `{var}` (used only when the one-line form exceeds the width) does not carry the same content as the one-line form: {diff}",
+                             construct=f"{f.qualname}: reflow of {var}: {diff[:80]}")
+
+
+# ---------------------------------------------------------------------------
+# PAREN: an operand is emitted without parentheses only if its own node kind was tested
+
+
+def check_parentheses(ctx, target: str, rule: str) -> None:
+    from ..flow import artefacts, set_dataflow
+
+    ci = transpiler_class(ctx, target)
+    for name in ("transform_comparison", "transform_is_in", "_transform_add_or_sub", "transform_implication", "transform_not"):
+        m = ci.methods.get(name)
+        if m is None:
+            continue
+        # operand variables bound from node fields
+        operands: Dict[str, str] = {}
+        for n in ast.walk(m.node):
+            if isinstance(n, ast.Assign) and isinstance(n.value, ast.Call) and (dotted_of(n.value.func) or "").startswith("self.") and n.value.args:
+                fld = dotted_of(n.value.args[0]) or ""
+                tgt = n.targets[0]
+                nm = tgt.elts[0].id if isinstance(tgt, ast.Tuple) and isinstance(tgt.elts[0], ast.Name) else (tgt.id if isinstance(tgt, ast.Name) else None)
+                if nm and fld.startswith("node.") and fld.count(".") == 1:
+                    operands[nm] = fld
+        if not operands:
+            continue
+        art = artefacts(ctx.ty, m)
+        cfg = art.cfg
+
+        def transfer(node, st, operands=operands):
+            st = dict(st)
+            s = node.stmt
+            if node.kind == "stmt" and isinstance(s, ast.Assign) and isinstance(s.targets[0], ast.Name) and s.targets[0].id in operands:
+                js = _first_template(s.value)
+                if js is not None:
+                    text, holes = _render(js)
+                    v = s.targets[0].id
+                    if v in holes and re.search(r"\(\s*(\x00\d+\x00\s*)*\x00%d\x00" % holes.index(v), text) and text.rstrip().endswith(")"):
+                        st[v] = "wrapped"
+            return [frozenset(st.items())]
+
+        def edge(node, st, label, operands=operands):
+            if node.kind == "test" and node.expr is not None and label in (True, False):
+                e = node.expr
+                if isinstance(e, ast.Call) and dotted_of(e.func) == "isinstance" and len(e.args) == 2:
+                    fld = dotted_of(e.args[0])
+                    for v, f_ in operands.items():
+                        if f_ == fld and label is True:
+                            d = dict(st)
+                            d[v] = "safe"
+                            return frozenset(d.items())
+            return st
+
+        IN = set_dataflow(cfg, frozenset([frozenset()]), lambda n, s: transfer(n, dict(s)), edge)
+        for node in cfg.nodes:
+            if node.kind != "return" or node.id not in IN or node.expr is None:
+                continue
+            value_expr = node.expr.elts[0] if isinstance(node.expr, ast.Tuple) and node.expr.elts else node.expr
+            for js in [x for x in ast.walk(value_expr) if isinstance(x, ast.JoinedStr)]:
+                text, holes = _render(js)
+                named = [h for h in holes if h in operands]
+                if len([h for h in holes if h is not None]) < 2 and name not in ("transform_not",):
+                    continue  # a single operand in the template: nothing can be mis-associated
+                for idx, h in enumerate(holes):
+                    if h not in operands:
+                        continue
+                    # lexically wrapped in this template?
+                    before = text.split(f"\x00{idx}\x00")[0].rstrip()
+                    after = text.split(f"\x00{idx}\x00")[1].lstrip() if f"\x00{idx}\x00" in text else ""
+                    # skip indentation-only holes around the operand
+                    before = re.sub("(\x00\\d+\x00)+$", "", before).rstrip()
+                    # delimited on both sides by brackets / commas (an argument position): no precedence issue
+                    lex = (before == "" or before[-1] in "(,[") and (after == "" or after[0] in "),]")
+                    what = f"{target}: {name}: operand `{h}` ({operands[h]}) emitted bare only after its node kind was tested"
+                    if lex:
+                        ctx.ok(rule, m, js, what=what, nontrivial=False)
+                        continue
+                    bad = [st for st in IN[node.id] if dict(st).get(h) not in ("safe", "wrapped")]
+                    if bad:
+                        ctx.fail(rule, m, js,
+                                 f"in {name} of the {target} transpiler the operand `{h}` ({operands[h]}) can reach the template `{_show_template(text)}` without parentheses although its node kind was not tested on that path: "
+                                 f"a compound operand is re-associated by the target language's operator precedence",
+                                 construct=f"{target}: {name}: bare operand {h}")
+                    else:
+                        ctx.ok(rule, m, js, what=what)
+
+
+def _show_template(text: str) -> str:
+    return re.sub("\x00(\\d+)\x00", lambda m_: "{" + m_.group(1) + "}", text).replace("\n", "\\n")[:80]
